@@ -386,7 +386,7 @@ def unparse(node, limit=160):
 # single-assignment temporaries
 # ---------------------------------------------------------------------------
 
-def single_assignments(fnode, allow_subscript=False, in_loops=False):
+def single_assignments(fnode, allow_subscript=False, in_loops=False, loose=False):
     """name -> value expression for every local that is bound exactly once in `fnode`, by a plain `name = expr` statement that is
     not inside a loop, and whose value mentions only parameters that are never rebound or other such locals.  At any later use the
     name therefore denotes the value of that expression (a use before the definition would raise UnboundLocalError)."""
@@ -452,7 +452,11 @@ def single_assignments(fnode, allow_subscript=False, in_loops=False):
         params.add(fnode.args.vararg.arg)
     if fnode.args.kwarg:
         params.add(fnode.args.kwarg.arg)
-    cand = {n: v[0].value for n, v in stores.items() if len(v) == 1 and v[0] is not None and (in_loops or n not in in_loop) and n not in params}
+    cand = {n: v[0].value for n, v in stores.items() if len(v) == 1 and v[0] is not None and (in_loops or n not in in_loop) and n not in params
+            and not isinstance(v[0].value, (ast.List, ast.Dict, ast.Set, ast.ListComp, ast.DictComp, ast.SetComp, ast.GeneratorExp))}
+    if loose:
+        # only "which expression defines this name" is wanted (role finding), not equality of values at the use
+        return cand
     stable = {p for p in params if p not in stores}
     if in_loops:
         # a loop variable bound by exactly one `for` (and nothing else) is constant within an iteration
@@ -496,11 +500,11 @@ class _SubstNames(ast.NodeTransformer):
         return n
 
 
-def resolve_temps(fnode, expr, allow_subscript=False, pure_only=True, in_loops=False):
+def resolve_temps(fnode, expr, allow_subscript=False, pure_only=True, in_loops=False, loose=False):
     """`expr` with every single-assignment temporary of `fnode` replaced by its defining expression (recursively).  With pure_only
     a temporary whose definition contains a call other than a NumPy scalar constructor / len / int / float is left alone."""
     import copy
-    env = single_assignments(fnode, allow_subscript, in_loops)
+    env = single_assignments(fnode, allow_subscript, in_loops, loose)
     if pure_only:
         def pure(v):
             for e in ast.walk(v):
